@@ -12,7 +12,7 @@
    about SHA-256 or JSON. *)
 From Coq Require Import List NArith Bool Permutation.
 Import ListNotations.
-From Oras Require Import Base.Prelude Generated.GC07 Model.GraphMem Model.GraphStore Model.IndexLTS Proofs.GraphMem Proofs.GraphStore Proofs.IndexLTS.
+From Oras Require Import Base.Prelude Generated.GC07 Model.GraphMem Model.GraphStore Model.IndexLTS Model.Links Proofs.GraphMem Proofs.Links Proofs.GraphStore Proofs.IndexLTS.
 
 (* The invariants written in the comments of graph.Memory hold after every history of
    Index / Remove / IndexAll / fresh-graph operations, with content appearing in and
@@ -34,6 +34,19 @@ Theorem C07_exact :
     predecessors_raw g n = map Some (predecessors g n).
 Proof. exact exact_full. Qed.
 Print Assumptions C07_exact.
+
+(* "... whose config, layers, blobs, manifests or subject reference n": with [content] the
+   model of content.Successors on a document ([successors_of], run against the real function
+   on every run), Predecessors(n) is exactly the nodes in memory that reference n as subject,
+   config, layer, listed manifest or blob -- as their media type makes the code read them
+   (a Docker manifest's subject, an index's layers ... are not references). *)
+Theorem C07_links_exact :
+  forall (doc : node -> mdoc) (g : graph),
+    Inv (fun p => successors_of (doc p)) g ->
+    forall n, NoDup (predecessors g n) /\
+              forall p, In p (predecessors g n) <-> In p (g_nodes g) /\ link (doc p) n.
+Proof. exact links_exact. Qed.
+Print Assumptions C07_links_exact.
 
 (* The two together, for the machine that is extracted and run against the Go code:
    after any history every query is exact. *)
